@@ -40,6 +40,9 @@ var infixOps = map[string]bool{",": true, ";": true, "->": true, "=": true, `\=`
 func (g *G) text() string {
 	switch g.K {
 	case 'v':
+		if g.V < 0 {
+			return "_"
+		}
 		return fmt.Sprintf("V%d", g.V)
 	case 'a':
 		return quoteAtom(g.S)
@@ -71,9 +74,15 @@ func (g *G) text() string {
 	return quoteAtom(g.S) + "(" + strings.Join(as, ",") + ")"
 }
 
+var anonCounter int
+
 func (g *G) coq() string {
 	switch g.K {
 	case 'v':
+		if g.V < 0 { // anonymous: a distinct variable at each occurrence
+			anonCounter++
+			return fmt.Sprintf("Var %d", 500000+anonCounter)
+		}
 		return fmt.Sprintf("Var %d", g.V)
 	case 'a':
 		return "Atom " + coqStr(g.S)
@@ -197,7 +206,7 @@ func (p *pgen) userCall(from int) *G {
 func (p *pgen) goal(depth, from int, allowCut bool) *G {
 	r, f := p.r, p.f
 	for tries := 0; tries < 20; tries++ {
-		switch r.intn(22) {
+		switch r.intn(24) {
 		case 0, 1, 2, 3:
 			if g := p.userCall(from); g != nil {
 				return g
@@ -255,6 +264,29 @@ func (p *pgen) goal(depth, from int, allowCut bool) *G {
 						closure = ga(g.S)
 					}
 					return gc("call", append([]*G{closure}, g.Args[len(g.Args)-k:]...)...)
+				}
+			}
+		case 22, 23:
+			// a goal reached through a variable bound at run time (variable goals, and control
+			// constructs whose parts are bound variables when call/1 compiles them)
+			if f.callN && depth > 0 {
+				mv := gv(p.nvars + r.intn(2))
+				switch r.intn(5) {
+				case 0:
+					return gc(",", gc("=", mv, p.conj(depth-1, from, false)), mv)
+				case 1:
+					if f.ite {
+						return gc(",", gc("=", mv, gc("->", p.conj(depth-1, from, false), p.conj(depth-1, from, false))),
+							gc("call", gc(";", mv, p.conj(depth-1, from, false))))
+					}
+				case 2:
+					return gc(",", gc("=", mv, p.conj(depth-1, from, false)), gc("call", gc(";", mv, p.conj(depth-1, from, false))))
+				case 3:
+					return gc(",", gc("=", mv, p.conj(depth-1, from, false)), gc("call", gc(",", p.goal(depth-1, from, false), mv)))
+				default:
+					if f.findall {
+						return gc(",", gc("=", mv, p.conj(depth-1, from, false)), gc("findall", p.term(1), mv, gv(r.intn(p.nvars))))
+					}
 				}
 			}
 		case 14:
@@ -319,7 +351,7 @@ func (p *pgen) catcher() *G {
 	case 0:
 		return gv(p.r.intn(p.nvars))
 	case 1:
-		return gc("error", gv(p.r.intn(p.nvars)), gv(p.r.intn(p.nvars)))
+		return gc("error", gv(p.r.intn(p.nvars)), gv(-1)) // the Context is implementation defined: never observed
 	default:
 		return p.ball()
 	}
@@ -456,6 +488,9 @@ func renumber(g *G) *G {
 	walk = func(x *G) *G {
 		switch x.K {
 		case 'v':
+			if x.V < 0 {
+				return x
+			}
 			n, ok := m[x.V]
 			if !ok {
 				n = len(m)
